@@ -23,7 +23,7 @@ TRUE_SPELLINGS = ["True", "true", "yes", "1", "on", "YES"]
 FALSE_SPELLINGS = ["False", "false", "no", "0", "off", "No"]
 QUOTES = ['"', "'", ""]
 SCOPES = [None, "default", "global", "branch"]
-MESSAGES = [None, "bump {old_version} -> {new_version}", "release {new_version_pep440}"]
+MESSAGES = [None, "bump {old_version} -> {new_version} (100% done)", "release {new_version_pep440}"]
 FILESETS = [
     [],
     [("a.txt", ["{version}"])],
@@ -39,7 +39,10 @@ def _bool_text(val, k):
     return (TRUE_SPELLINGS if val else FALSE_SPELLINGS)[k]
 
 
-def build(commit, tag, push, scope, msg, files, spell, quote, own_listed):
+HOOKS = [None, "hook.sh", "missing.sh"]      # absent / an existing script / a script that does not exist (both readers must refuse)
+
+
+def build(commit, tag, push, scope, msg, files, spell, quote, own_listed, hook=0):
     """-> (ini_text, toml_text, toml_dict) of one meaning. tag/push: 0 absent, 1 False, 2 True"""
     q = QUOTES[quote]
     sec = "pycalver" if LEGACY_SECTION else "bumpver"
@@ -60,6 +63,10 @@ def build(commit, tag, push, scope, msg, files, spell, quote, own_listed):
         ini.append(f"commit_message = {q}{MESSAGES[msg]}{q}")
         toml.append(f'commit_message = "{MESSAGES[msg]}"')
         d["commit_message"] = MESSAGES[msg]
+    if HOOKS[hook] is not None:
+        ini.append(f"pre_commit_hook = {q}{HOOKS[hook]}{q}")
+        toml.append(f'pre_commit_hook = "{HOOKS[hook]}"')
+        d["pre_commit_hook"] = HOOKS[hook]
     fileset = list(FILESETS[files])
     ini.append("")
     ini.append(f"[{sec}:file_patterns]")
@@ -87,7 +94,7 @@ def build(commit, tag, push, scope, msg, files, spell, quote, own_listed):
 
 
 def _parse(fname, text, toml_dict=None):
-    fs = MemFS({fname: text, "a.txt": "1.2.3", "docs/x.md": "", "docs/y.md": ""})
+    fs = MemFS({fname: text, "a.txt": "1.2.3", "docs/x.md": "", "docs/y.md": "", "hook.sh": "#!/bin/sh"})
     saved = (config.pl, config.toml)
     config.pl = NS(Path=fs.Path)
     if toml_dict is not None:
@@ -111,18 +118,20 @@ def _norm(cfg, own):
             cfg.pre_commit_hook, cfg.post_commit_hook, cfg.commit, cfg.tag, cfg.push, cfg.is_new_pattern, tuple(pats))
 
 
-def same_meaning(commit: bool, tag: int, push: int, scope: int, msg: int, files: int, spell: int, quote: int, own_listed: bool) -> bool:
+def same_meaning(commit: bool, tag: int, push: int, scope: int, msg: int, files: int, spell: int, quote: int, own_listed: bool,
+                 hook: int = 0) -> bool:
     """
     pre: 0 <= tag <= 2 and 0 <= push <= 2 and 0 <= scope <= 3 and 0 <= msg <= 2 and 0 <= files <= 2 and 0 <= spell <= 5 and 0 <= quote <= 2
+    pre: 0 <= hook <= 2 and fx("hook", hook)
     pre: fx("spell", spell) and fx("quote", quote) and fx("files", files) and fx("msg", msg) and fx("own_listed", own_listed)
     post: _
     """
-    ini_text, toml_text, toml_dict = build(commit, tag, push, scope, msg, files, spell, quote, own_listed)
+    ini_text, toml_text, toml_dict = build(commit, tag, push, scope, msg, files, spell, quote, own_listed, hook)
     a = _norm(_parse("setup.cfg", ini_text), "setup.cfg")
     b = _norm(_parse(TOML_FILE, toml_text, toml_dict), TOML_FILE)
     if a != b:
         return False
-    must_reject = (tag == 2 or push == 2) and not commit
+    must_reject = ((tag == 2 or push == 2) and not commit) or hook == 2
     if must_reject:
         return a is None
     if a is None:
@@ -132,6 +141,8 @@ def same_meaning(commit: bool, tag: int, push: int, scope: int, msg: int, files:
     pats = set(a[12])
     if ("<config>", 'current_version = "MAJOR.MINOR.PATCH"') not in pats and ("<config>", 'current_version = "{version}"') not in pats \
             and ("<config>", 'current_version = "MAJOR.MINOR.PATCH"'.replace("{version}", "x")) not in pats:
+        return False
+    if a[6] != (HOOKS[hook] or ""):
         return False
     return (a[0] == "1.2.3" and a[8] == commit and a[9] == (tag == 2) and a[10] == (push == 2) and a[5] == want_scope
             and a[3] == (MESSAGES[msg] or config.DEFAULT_COMMIT_MESSAGE))
@@ -150,8 +161,9 @@ def validate_toml_contract():
     import itertools
     import toml
     n, errs = 0, []
-    for commit, tag, push, scope, msg, files, own in itertools.product((False, True), range(3), range(3), range(4), range(3), range(3), (False, True)):
-        _ini, text, d = build(commit, tag, push, scope, msg, files, 0, 0, own)
+    for commit, tag, push, scope, msg, files, own, hook in itertools.product((False, True), range(3), range(3), range(4), range(3), range(3),
+                                                                             (False, True), range(3)):
+        _ini, text, d = build(commit, tag, push, scope, msg, files, 0, 0, own, hook)
         n += 1
         got = toml.loads(text)
         if got != d and len(errs) < 3:
